@@ -968,12 +968,16 @@ where
             static BUF: RefCell<String> = const { RefCell::new(String::new()) };
         }
 
-        BUF.with(|buf| {
-            let borrow = buf.try_borrow_mut();
+        // `buf` is this thread's reusable buffer, or `None` when the
+        // thread-local is gone: an event emitted from another thread-local's
+        // destructor arrives after `BUF` has been destroyed, and must still
+        // be written.
+        let format = |buf: Option<&RefCell<String>>| {
+            let borrow = buf.map(RefCell::try_borrow_mut);
             let mut a;
             let mut b;
             let mut buf = match borrow {
-                Ok(buf) => {
+                Some(Ok(buf)) => {
                     a = buf;
                     &mut *a
                 }
@@ -988,7 +992,7 @@ where
             // panic was caught), the `clear` below never ran for that event.
             buf.clear();
 
-            let ctx = self.make_ctx(ctx, event);
+            let ctx = self.make_ctx(ctx.clone(), event);
             if self
                 .fmt_event
                 .format_event(
@@ -1016,7 +1020,11 @@ where
             }
 
             buf.clear();
-        });
+        };
+
+        if BUF.try_with(|buf| format(Some(buf))).is_err() {
+            format(None);
+        }
     }
 
     unsafe fn downcast_raw(&self, id: TypeId) -> Option<NonNull<()>> {
